@@ -5,6 +5,7 @@ import SeqVerif.Model.FetchIndex
 import SeqVerif.Model.FetchDocs
 import SeqVerif.Model.FetchFracs
 import SeqVerif.Model.FetchBytes
+import SeqVerif.Model.FetchRange
 /-!
 Driver for C04.  Requests (ids are `mid:rid`, lists comma separated, `-` = empty):
   `chunksize <maxFetch> <lens> <prev>`        -> `ok <n>`                 docsStream.calcChunkSize (repaired form)
@@ -16,6 +17,7 @@ Driver for C04.  Requests (ids are `mid:rid`, lists comma separated, `-` = empty
   `docpos.unpack <bits> <pos>`                -> `ok <block> <off>`       DocPos.Unpack
   `groupoffsets <bits> <positions>`           -> `ok <block>/<offs +>/<idx +>;...`   seq.GroupDocsOffsets
   `extract <block hex> <offsets>`             -> `ok <doc hex>,...`       extractDocsFromBlockFunc
+  `filterstats <collector ids> <appended ids>` -> `ok min= max= kept=`   metaDataCollector.Filter
   `groupids <fracs> <ids>`                    -> `ok <name>=<ids>;...` | `panic`     fracmanager.groupIDsByFraction
         frac = `<name>/<isect lo:hi:0|1>/<contains mid=0|1 +>` (the fraction's answers are oracle arguments),
         id = `mid:rid:hint` (hint = fraction name or `-`)
@@ -131,6 +133,12 @@ def step (line : String) : String :=
   | ["extract", blk, offs] =>
     match hex? blk, natList? offs with
     | some blk, some offs => s!"ok {fmtList fmtHex (extractDocs blk offs)}"
+    | _, _ => "bad-op"
+  | ["filterstats", ids, appended] =>
+    match parseIDs ids, parseIDs appended with
+    | some ids, some appended =>
+      let st := filterStats ids appended
+      s!"ok min={st.1} max={st.2} kept={fmtList fmtID (keptIDs ids appended)}"
     | _, _ => "bad-op"
   | ["groupids", fracs, ids] =>
     match (splitList fracs ";").mapM (parseFrac false), (splitList ids).mapM parseIDS with
